@@ -37,7 +37,7 @@ import (
 
 // value names: plain names (every one of them is also used as a module name),
 // and dotted names (must be rejected by every define operation).
-var c12ValNames = []string{"a", "b", "m", "x", "a.b", "m.x"}
+var c12ValNames = []string{"a", "b", "m", "x", "a.b", "m.x", ".a", ".", "a."}
 var c12PlainNames = []string{"a", "b", "m", "x"}
 
 // names used by type definitions (two of them shadow built-in type names,
@@ -1260,7 +1260,7 @@ func (g *c12Gen) pickScope() int {
 
 func (g *c12Gen) pickName() string {
 	if g.r.Intn(8) == 0 {
-		return c12ValNames[4+g.r.Intn(2)]
+		return c12ValNames[4+g.r.Intn(len(c12ValNames)-4)]
 	}
 	// skewed so that shadowing along a chain is frequent
 	if g.r.Intn(2) == 0 {
